@@ -439,6 +439,7 @@ def pop_exhaustive_case(ctx, rng, idx):
 def _counts_agree(ctx, m, n_ids, feats, what):
     """n_parameters == names == hierarchical top count; gradients of the
     reported lengths; returns False after reporting a problem"""
+    untouched = copy.deepcopy(m)    # no accessor called on it yet
     if not _reads_order_free(ctx, m, n_ids, feats, what):
         return False
     names = m.get_parameter_names()
@@ -467,6 +468,22 @@ def _counts_agree(ctx, m, n_ids, feats, what):
                           {'what': what, 'names': names}, feats)
         return False
     ctx.count('gradient_lengths_checked')
+    # a list of names of the reported length is accepted and read back
+    try:
+        given = ['q%d' % i for i in range(n)]
+        untouched.set_parameter_names(given)
+        m.set_parameter_names(given)
+        back = m.get_parameter_names(exclude_dim_names=True)
+        m.set_parameter_names(None)
+    except Exception as e:      # noqa
+        ctx.violation_exc('names_of_reported_length_refused', e,
+                          {'what': what, 'names': names}, feats)
+        return False
+    if len(back) != n:
+        _bad(ctx, 'population_counts',
+             {'problems': ['%s: %d names set, %d read back' % (
+                 what, n, len(back))]}, feats)
+        return False
     if np.asarray(g).shape != (n_b + n_t,) or np.asarray(dth).shape != (n,):
         _bad(ctx, 'population_gradient_length',
              {'what': what, 'reduced': np.asarray(g).shape,
@@ -512,15 +529,71 @@ def _same_object_case(ctx, rng, n_ids):
                  pop.get_dim_names(), dims)]}, feats)
 
 
+def _reduced_inner_select_case(ctx, rng, n_ids):
+    """ReducedPopulationModel around a covariate model whose transformed
+    parameters are selected afterwards through get_population_model()
+    (the call exists only on the wrapped class); optionally a parameter is
+    fixed before, which stays fixed by name"""
+    n_dim = int(rng.integers(1, 3))
+    n_cov = int(rng.integers(1, 3))
+    base = [chi.GaussianModel, chi.LogNormalModel][int(rng.integers(2))](
+        n_dim=n_dim)
+    cpm = chi.CovariatePopulationModel(
+        base, chi.LinearCovariateModel(n_cov=n_cov))
+    red = chi.ReducedPopulationModel(cpm)
+    composed = rng.random() < 0.5
+    prefix = rng.random() < 0.5
+    feats = {'mode': 'reduced_inner_select', 'n_ids': n_ids, 'n_dim': n_dim,
+             'n_cov': n_cov, 'composed': composed, 'fixed_before': prefix,
+             'base': type(base).__name__}
+    ctx.case(('submodel', 'reduced_inner_select', n_dim, n_cov, composed,
+              prefix, feats['base']), True, sample=feats)
+    pop = chi.ComposedPopulationModel([red, chi.PooledModel()]) \
+        if composed else red
+    try:
+        pop.set_n_ids(n_ids)
+        if not _counts_agree(ctx, pop, n_ids, feats, 'before selecting'):
+            return
+        kept = None
+        if prefix:
+            # the first parameter exists under every selection
+            kept = red.get_parameter_names()[0]
+            red.fix_parameters({kept: 0.6})
+        full = [[p_, d] for p_ in range(2) for d in range(n_dim)]
+        k = int(rng.integers(1, len(full) + 1))
+        sel = [full[i] for i in rng.permutation(len(full))[:k]]
+        feats['selected'] = k
+        red.get_population_model().set_population_parameters(sel)
+        ctx.count('reconfiguration_steps')
+        want = 2 * n_dim + k * n_cov - int(prefix) + int(composed)
+        if not _counts_agree(ctx, pop, n_ids, feats,
+                             'after selecting through the wrapper'):
+            return
+        if pop.n_parameters() != want or (
+                kept is not None and kept in red.get_parameter_names()):
+            _bad(ctx, 'population_counts',
+                 {'problems': ['%d parameters, expected %d; fixed name %r '
+                               'still listed: %s' % (
+                                   pop.n_parameters(), want, kept,
+                                   kept in red.get_parameter_names())]},
+                 feats)
+    except Exception as e:      # noqa
+        ctx.violation_exc('reconfiguration_raises', e, {'case': feats},
+                          feats)
+
+
 def submodel_case(ctx, rng, idx):
     """a composite whose sub-model is reconfigured AFTER composing (the
     calls exist only on the sub-model classes), and wrapped heterogeneous
     sub-models that were created for another number of individuals"""
     mode = ['sub_fix', 'sub_select', 'wrapped_heterogeneous',
-            'same_object'][idx % 4]
+            'same_object', 'reduced_inner_select'][idx % 5]
     n_ids = int(rng.integers(1, 5))
     if mode == 'same_object':
         _same_object_case(ctx, rng, n_ids)
+        return
+    if mode == 'reduced_inner_select':
+        _reduced_inner_select_case(ctx, rng, n_ids)
         return
     other = [chi.PooledModel(), chi.GaussianModel(),
              chi.LogNormalModel(n_dim=2)][int(rng.integers(3))]
